@@ -48,6 +48,15 @@ def install():
     import allmydata  # noqa: F401  (import-time side effects happen under the sim reactor)
     import allmydata.util.cputhreadpool as ctp
     ctp._DISABLED = True   # engines may install the simulated pool instead (sim.threads)
+    # twisted's default observer prints every log.err() to stderr; collect them instead (probes)
+    from twisted.python import log as twlog
+    r.logged_errors = []
+
+    def _obs(ev):
+        if ev.get("isError"):
+            f = ev.get("failure")
+            r.logged_errors.append(f.type.__name__ if f is not None else "error")
+    twlog.startLoggingWithObserver(_obs, setStdout=False)
     return r
 
 
